@@ -1924,7 +1924,7 @@ class StringMixin(MonadMixin):
             stop = param_to_const(stop, is_start=False)
             start_value = stop_value = None
             if start is None: start_value = 0
-            if stop_value is None: stop_value = -1
+            if stop is None: stop_value = -1
             if isinstance(start, ConstMonad): start_value = start.value
             if isinstance(stop, ConstMonad): stop_value = stop.value
             if start_value == 0 and stop_value == -1:
